@@ -5,7 +5,7 @@
    trie walk of lookup_route; [serves]/[tmatch] the declarative reading of a
    declaration (RouterSpec.v: method equal, template matches, version in
    range). *)
-From DS Require Import Base Versions VersionsProofs Router RouterSpec RouterProofs Pct PathNorm Route RouteProofs.
+From DS Require Import Base Versions VersionsProofs Router RouterSpec RouterProofs Pct PathNorm Route RouteProofs Pipeline PipelineProofs.
 From Coq Require Import Permutation.
 
 Section C01.
@@ -80,6 +80,28 @@ Section C01.
                  serves V cmp (t, e) m (map pct_decode (raw_segments rawpath)) v = Some b /\
                  vars = bm_of b).
   Proof. exact (route_end_to_end V cmp bot TO). Qed.
+
+  (* 6. through the whole request pipeline (Pipeline.v: version policy, path
+     normalisation, trie): the handler of e runs with variables vars exactly
+     when the policy yields a version for the request, the raw path normalises,
+     and e is the declaration serving the decoded segments under the request's
+     method at that version *)
+  Theorem C01_pipeline_invoke_iff : forall (parse : str -> option V) (p : policy V) (eps : list (decl V)) r
+                                           m rawpath h e vars ov,
+    build V cmp eps = Ok r ->
+    (forall d, In d eps -> wf_range V cmp (e_versions (snd d))) ->
+    starts V p eps = true ->
+    (handle V cmp parse p r m rawpath h = HInvoke e vars ov <->
+     request_version V cmp parse p h = Ok ov /\
+     exists t b, In (t, e) eps /\
+                 input_segments rawpath = Ok (map pct_decode (raw_segments rawpath)) /\
+                 serves V cmp (t, e) m (map pct_decode (raw_segments rawpath)) ov = Some b /\
+                 vars = bm_of b).
+  Proof. exact (handle_invoke_iff V cmp bot TO). Qed.
+
+  Theorem C01_pipeline_never_panics : forall (parse : str -> option V) (p : policy V) (eps : list (decl V)) r m rawpath h,
+    build V cmp eps = Ok r -> handle V cmp parse p r m rawpath h <> HPanic.
+  Proof. exact (handle_no_panic V cmp). Qed.
 End C01.
 
 (* non-vacuity: a table with siblings, a variable chain, a wildcard and three
@@ -110,6 +132,29 @@ Example C01_version_ok_nonvacuous : version_ok N N.compare ex_table (Some 3).
 Proof. split; [|exact I]. intros d Hd. cbn in Hd.
   repeat (destruct Hd as [<-|Hd]; [cbn; try exact I; discriminate|]). destruct Hd. Qed.
 
+(* non-vacuity for the pipeline: the header policy with maximum 5 over the
+   table above (a one-digit toy version syntax), every outcome *)
+Definition toy_parse (s : str) : option N :=
+  match s with [d] => if (48 <=? d) && (d <=? 57) then Some (d - 48) else None | _ => None end.
+Example C01_pipeline_nonvacuous :
+  match build N N.compare ex_table with
+  | Ok r =>
+      let h := handle N N.compare toy_parse (PHeader 5) r in
+      (match h GET [47;97;47;122] (HStr [51]) with
+       | HInvoke e v ov => e_id e = [50] /\ v = [([120], Single [122])] /\ ov = Some 3 | _ => False end) /\
+      (match h GET [47;97;47;37;55;65] (HStr [48]) with           (* /a/%7A at version 0 *)
+       | HInvoke e v ov => e_id e = [49] /\ v = [([120], Single [122])] | _ => False end) /\
+      h GET [47;97;47;122] (HStr [55]) = HBadVersion /\             (* newer than the maximum *)
+      h GET [47;110;111] HAbsent = HBadVersion /\                   (* no header, although the path does not exist *)
+      h GET [47;97;47;122] (HStr [120]) = HBadVersion /\
+      h GET [47;97;47;37;50;101;37;50;101] (HStr [51]) = HBadPath /\  (* /a/%2e%2e *)
+      h GET [47;97;47;122] (HStr [53]) = HNotAllowed [PUT] /\
+      h GET [47;98] (HStr [53]) = HNotFound /\
+      starts N (PHeader 5) ex_table = true /\ starts N PUnversioned ex_table = false
+  | Err _ => False
+  end.
+Proof. vm_compute. repeat split. Qed.
+
 Print Assumptions C01_dispatch_exact.
 Print Assumptions C01_dispatch_unique.
 Print Assumptions C01_bindings_keys.
@@ -119,3 +164,5 @@ Print Assumptions C01_order_irrelevant_lookup.
 Print Assumptions C01_trie_is_table.
 Print Assumptions C01_lookup_never_panics.
 Print Assumptions C01_route_end_to_end.
+Print Assumptions C01_pipeline_invoke_iff.
+Print Assumptions C01_pipeline_never_panics.
